@@ -493,12 +493,68 @@ def r06_7(ctx, counts: dict[str, int]) -> RuleResult:
     return res
 
 
+def r06_8(ctx, counts: dict[str, int]) -> RuleResult:
+    """operand promotion keeps the class of the floating-point operand"""
+    from ..engine.cfg import CFG
+    from ..engine.dataflow import branch_facts
+    model = ctx.model
+    res = RuleResult(
+        'R06.8', 'FLOAT-CLASS-PRESERVED',
+        'xs:float (the Float subclass of float) and xs:double (a plain float) share the branch '
+        '`isinstance(opA, float)` of XPathToken.get_operands. When the partner opB is converted '
+        'to meet a floating-point opA, the result of xs:float op xs:decimal / xs:integer is '
+        'xs:float, so the converted partner is built with the class of opA (`type(opA)(opB)`), '
+        'never with a fixed double constructor (float(..), cast_to_double(..), DoubleProxy(..)); '
+        'Decimal(..) of the float itself is the duration case. xs:float("3e38") * 2 must '
+        'overflow to INF in single precision. (Conversions of xs:untypedAtomic, which is cast to '
+        'xs:double by definition, are outside: they are not under an isinstance(.., float) '
+        'fact of the other operand.)')
+    xt = model.find_class('XPathToken')
+    f = xt.methods.get('get_operands') if xt is not None else None
+    if f is None:
+        raise AnalysisError('XPathToken.get_operands vanished')
+    cfg = CFG(f.node)
+    facts = branch_facts(cfg)
+    n = 0
+    for nd in cfg.nodes:
+        if nd.kind != 'stmt' or not isinstance(nd.ast, ast.Return) \
+                or not isinstance(nd.ast.value, ast.Tuple) or len(nd.ast.value.elts) != 2:
+            continue
+        floats = {fa[len('+isinstance('):].split(',')[0] for fa in facts[nd.id]
+                  if fa.startswith('+isinstance(') and fa.endswith(', float)')}
+        if not floats:
+            continue
+        for e in nd.ast.value.elts:
+            if not isinstance(e, ast.Call):
+                continue
+            n += 1
+            callee = stmt_text(e.func)
+            args = {y.id for a_ in e.args for y in ast.walk(a_) if isinstance(y, ast.Name)}
+            ok = any(callee == f'type({v})' for v in floats) or (
+                callee.split('.')[-1] == 'Decimal' and bool(args & floats))
+            res.instances.append(f'{f.key}: L{nd.ast.lineno} `{stmt_text(e)[:40]}` beside a float '
+                                 f'operand ({"/".join(sorted(floats))}): class preserved: {ok}')
+            if ok:
+                res.ok()
+            else:
+                res.fail(finding('R06.8', f, nd.ast, f'partner converted with {callee[:30]}',
+                                 f'`{stmt_text(nd.ast)[:70]}` converts the partner of the '
+                                 f'floating-point operand {"/".join(sorted(floats))} with '
+                                 f'`{callee}`: when that operand is an xs:float the result of the '
+                                 f'operator is an xs:double (xs:float("3e38") * 2 is 6e38 instead '
+                                 f'of INF); the sibling branches use type(op)(..)'))
+    counts['float_partner_conversions'] = n
+    if n < 2:
+        raise AnalysisError(f'get_operands: {n} conversions beside a float operand located')
+    return res
+
+
 def run(ctx) -> dict:
     counts: dict[str, int] = {}
     return {
         'results': [r06_1(ctx, counts), r06_2(ctx, counts), r06_3(ctx, counts), r06_4(ctx, counts),
                     r06_5(ctx, counts), r06_6(ctx, counts),
-                    r06_7(ctx, counts)], 'counts': counts,
+                    r06_7(ctx, counts), r06_8(ctx, counts)], 'counts': counts,
         'explanation':
             'Decided: the rounding-mode clause of C06 and one IEEE clause (the sign of a zero '
             'divisor is never read through a comparison). Rounding: a who-may-call rule confines '
